@@ -411,6 +411,477 @@ class NodeCountStream(Stream):
             acc["count_differs_from_typed_eq_classes"] = acc.get("count_differs_from_typed_eq_classes", 0) + 1
 
 
+# {{{ histories: ONE mapper object is given several expressions in a row
+
+_CTXS = ["num", "num", "any", "bool", "int"]
+
+
+def _leaf(r):
+    return p.Variable(r.choice(["x", "y", "z", "i", "w", "a"]))
+
+
+def combine_parts(r, parts):
+    """one node above `parts` (the first part is the first child visited: the one whose result a
+    left fold starts from)"""
+    parts = list(parts)
+    while len(parts) < 2:
+        parts.append(_leaf(r))
+    a, b = parts[0], parts[1]
+    f = p.Variable(r.choice(["f", "g"]))
+    shape = r.choice(["sum", "sum", "product", "product", "quot", "pow", "floordiv", "minmax",
+                      "call", "callkw", "subscript", "index", "lookup", "if", "cmp", "cse",
+                      "tuple", "logical", "nested"])
+    if shape == "sum":
+        return p.Sum(tuple(parts))
+    if shape == "product":
+        return p.Product(tuple(parts))
+    if shape == "quot":
+        return p.Quotient(a, p.Sum(tuple(parts[1:])) if len(parts) > 2 else b)
+    if shape == "pow":
+        return p.Power(a, b)
+    if shape == "floordiv":
+        return p.FloorDiv(a, b)
+    if shape == "minmax":
+        return r.choice([p.Min, p.Max])(tuple(parts))
+    if shape == "call":
+        return p.Call(f, tuple(parts))
+    if shape == "callkw":
+        return p.CallWithKwargs(f, (a,), dict(zip(["k", "a", "l", "zz"], parts[1:])))
+    if shape == "subscript":
+        return p.Subscript(a, b if len(parts) == 2 else tuple(parts[1:]))
+    if shape == "index":
+        return p.Subscript(p.Variable("t"), tuple(parts))
+    if shape == "lookup":
+        return p.Sum((p.Lookup(a, r.choice(["u", "v"])), *parts[1:]))
+    if shape == "if":
+        return p.If(p.Comparison(a, r.choice(["<", "==", ">="]), b), parts[-1], a)
+    if shape == "cmp":
+        return p.Comparison(a, r.choice(["<", "!=", "=="]), b)
+    if shape == "cse":
+        return p.CommonSubexpression(p.Sum(tuple(parts)), r.choice([None, "cs"]))
+    if shape == "tuple":
+        return tuple(parts)
+    if shape == "logical":
+        return r.choice([p.LogicalOr, p.LogicalAnd, p.BitwiseXor])(tuple(parts))
+    return p.Product((p.Sum((a, _leaf(r))), *parts[1:]))
+
+
+def history_trees(r, g, n):
+    """`n` trees for one history: they are built over a small pool of SHARED parts (subtrees and
+    CommonSubexpression wrappers, also wrappers around other parts), a part may be a history entry
+    on its own (before or after the trees that contain it), earlier trees come back inside later
+    ones and as they are."""
+    pool = []
+    for _ in range(r.randint(2, 4)):
+        e = g.gen(r.choice(_CTXS), r.randint(0, 3))
+        if r.random() < 0.45:
+            e = p.CommonSubexpression(e, r.choice([None, "cs", "u"]))
+        pool.append(e)
+    if r.random() < 0.4:
+        inner = combine_parts(r, [r.choice(pool), g.gen("num", 1)])
+        pool.append(p.CommonSubexpression(inner, r.choice([None, "cs"])))
+    trees = []
+    for _ in range(n):
+        k = r.random()
+        if trees and k < 0.12:
+            t = r.choice(trees)
+        elif k < 0.3:
+            t = r.choice(pool)
+        else:
+            parts = [r.choice(pool) for _ in range(r.randint(1, 2))]
+            if trees and r.random() < 0.25:
+                parts.append(r.choice(trees))
+            for _ in range(r.randint(0, 2)):
+                parts.append(g.gen(r.choice(_CTXS), r.randint(0, 2)))
+            if r.random() < 0.4:
+                r.shuffle(parts)
+            t = combine_parts(r, parts)
+        trees.append(t)
+    return trees
+
+
+def history_exprs(pl):
+    """the trees of a history payload; with `share` structurally equal subtrees of the whole
+    history are ONE Python object (caches keyed by identity and caches keyed by `==` both get
+    their hits)"""
+    es = [sx_to_expr(loads(s)) for s in pl["exprs"]]
+    if pl.get("share"):
+        from ..sexp import hashcons
+        try:
+            memo = {}
+            shared = [hashcons(e, memo) for e in es]
+            if [dumps(expr_to_sx(e)) for e in shared] == list(pl["exprs"]):
+                return shared
+        except Exception:
+            pass
+    return es
+
+
+def render_set(res):
+    return "(" + " ".join(sorted(dumps(expr_to_sx(d)) for d in res)) + ")"
+
+
+def _show(d):
+    """printable form that never runs mapper code (malformed trees make `str` raise)"""
+    try:
+        return str(d)
+    except Exception:
+        return dumps(expr_to_sx(d))
+
+
+def _shows(ds):
+    return sorted(_show(d) for d in ds)
+
+
+def _shrink_history(pl, steps_key=None):
+    ex = pl["exprs"]
+    if steps_key is not None:
+        steps = pl[steps_key]
+        for i in range(len(steps)):
+            if len(steps) > 1:
+                yield {**pl, steps_key: steps[:i] + steps[i + 1:]}
+        used = sorted({e for _m, e in steps})
+        if len(used) < len(ex):        # drop the trees no call refers to
+            pos = {e: k for k, e in enumerate(used)}
+            yield {**pl, "exprs": [ex[e] for e in used],
+                   steps_key: [[m, pos[e]] for m, e in steps]}
+            return
+    else:
+        for i in range(len(ex)):
+            if len(ex) > 1:
+                yield {**pl, "exprs": ex[:i] + ex[i + 1:]}
+        used = range(len(ex))
+    if pl.get("share"):
+        yield {**pl, "share": False}
+    for i in used:
+        for s in sx_shrinks(loads(ex[i])):
+            yield {**pl, "exprs": ex[:i] + [dumps(s)] + ex[i + 1:]}
+
+
+class DepHistoryStream(Stream):
+    """Sequences (2..6 calls) of trees that share subtrees and CommonSubexpression nodes, given to
+    ONE `DependencyMapper` / `CachedDependencyMapper` object (sometimes two objects with different
+    flags, interleaved).  The model functions are pure: the model answer of a history is the list
+    of the single answers.  The oracle compares every answer with the independent scan computed
+    afresh and re-compares every set handed out earlier after each later call (a returned set
+    must not change)."""
+    name = "deps-history"
+
+    def _mapper_spec(self, rng, i, tier):
+        fl = FLAGSETS[i % len(FLAGSETS)] if tier == "quick" else rng.choice(FLAGSETS)
+        comp = None
+        if rng.random() < 0.1:
+            comp = rng.random() < 0.5
+            fl = dict(fl, subscripts=comp, lookups=comp, calls=comp)
+        return {"flags": fl, "cached": rng.random() < 0.5, "composite": comp}
+
+    def cases(self, rng, tier):
+        # every flag set, cached and uncached, on histories over the parts of one fixed tree that
+        # nests every composite kind: a sum starting with a part, the part alone, the part next to
+        # other siblings, a wrapper, the wrapper's child, everything
+        x, y, f, a, r_ = (p.Variable(v) for v in "xyfar")
+        parts = [p.Subscript(a, p.Call(f, (x, p.Lookup(r_, "u")))),
+                 p.Call(f, (p.Subscript(a, x),)),
+                 p.CommonSubexpression(p.Lookup(p.Subscript(a, 1), "v")),
+                 p.Lookup(p.Call(f, (p.Variable("z"),)), "w")]
+        wrap = p.CommonSubexpression(p.Sum((parts[0], y)))
+        fixed = [p.Sum((parts[2], parts[0], x)), parts[2], p.Product((parts[2], y)),
+                 p.Sum((wrap, parts[1])), wrap, p.Product((parts[0], parts[3])),
+                 p.Quotient(x, y), p.Power(x, p.Variable("w")), parts[0]]
+        fixed_sx = [dumps(expr_to_sx(e)) for e in fixed]
+        windows = [[0, 1, 2], [3, 4, 5, 8], [6, 7, 0, 6]]
+        for fl in FLAGSETS:
+            for cached in (False, True):
+                for win in windows:
+                    yield {"exprs": fixed_sx, "share": cached,
+                           "mappers": [{"flags": fl, "cached": cached, "composite": None}],
+                           "steps": [[0, e] for e in win]}
+        n = 700 if tier == "quick" else 12000
+        g = ExprGen(rng, cse=0.15, floats=0.0)
+        for i in range(n):
+            length = rng.randint(2, 6)
+            trees = history_trees(rng, g, length)
+            mappers = [self._mapper_spec(rng, i, tier)]
+            if rng.random() < 0.25:
+                mappers.append(self._mapper_spec(rng, i + 7, tier))
+            steps = [[rng.randrange(len(mappers)), k] for k in range(length)]
+            if length < 6 and rng.random() < 0.3:
+                steps.append([rng.randrange(len(mappers)), rng.randrange(length)])
+            yield {"exprs": [dumps(expr_to_sx(e)) for e in trees], "share": rng.random() < 0.5,
+                   "mappers": mappers, "steps": steps}
+
+    def request(self, pl):
+        out = []
+        for m, e in pl["steps"]:
+            sp = pl["mappers"][m]
+            c = "true" if sp["cached"] else "false"
+            out.append(f"({flags_req(sp['flags'])} {c} {pl['exprs'][e]})")
+        return f"(deps-hist ({' '.join(out)}))"
+
+    def _setup(self, pl):
+        es = history_exprs(pl)
+        ms = [make_mapper(sp["flags"], sp["cached"], sp["composite"]) for sp in pl["mappers"]]
+        return es, ms
+
+    def run_impl(self, pl):
+        es, ms = self._setup(pl)
+        outs, held = [], []
+        for m, e in pl["steps"]:
+            try:
+                res = ms[m](es[e])
+            except RecursionError:
+                raise
+            except Exception as ex:
+                outs.append(err_sx(ex))
+                continue
+            outs.append(render_set(res))
+            held.append((len(outs) - 1, res))
+        changed = [str(i) for i, res in held if render_set(res) != outs[i]]
+        out = "(" + " ".join(outs) + ")"
+        if changed:
+            out += f" (changed-later {' '.join(changed)})"
+        return out
+
+    def agree(self, model, impl, pl):
+        if model == impl:
+            return "ok"
+        if "(noclaim)" in model:
+            return "trivial"
+        if "changed-later" in impl:
+            return "diff"
+        # sets are compared as Python compares them (`==` on the elements): a memoized answer may
+        # be the answer computed for another spelling of an equal tree (`t[1]` / `t[True]`)
+        try:
+            mo, io = loads(model), loads(impl)
+            if len(mo) != len(io):
+                return "diff"
+            for a, b in zip(mo, io):
+                a_err = bool(a) and a[0] == "err"
+                b_err = bool(b) and b[0] == "err"
+                if a_err or b_err:
+                    if dumps(a) != dumps(b):
+                        return "diff"
+                elif {sx_to_expr(t) for t in a} != {sx_to_expr(t) for t in b}:
+                    return "diff"
+            return "ok"
+        except Exception:
+            return "diff"
+
+    def oracle(self, pl):
+        es, ms = self._setup(pl)
+        held = []
+        for n, (m, e) in enumerate(pl["steps"]):
+            sp = pl["mappers"][m]
+            kind = "cached" if sp["cached"] else "plain"
+            expr = es[e]
+            try:
+                got = ms[m](expr)
+            except Exception:
+                got = None  # node types the analysis does not handle are reported by raising
+            if got is not None:
+                fl = sp["flags"]
+                want = scan.dependencies(expr, fl["subscripts"], fl["lookups"], fl["calls"],
+                                         fl["cses"])
+                if got != want:
+                    try:
+                        fresh = make_mapper(fl, sp["cached"], sp["composite"])(expr)
+                    except Exception:
+                        fresh = None
+                    key = "deps-differ" if fresh != want else f"deps-history-differ-{kind}"
+                    return Failure(key, f"call {n} of the history (mapper {m}, {kind}) on "
+                                   f"{_show(expr)}: missing {_shows(want - got)} extra "
+                                   f"{_shows(got - want)} flags {fl}; a fresh "
+                                   f"mapper gives {None if fresh is None else _shows(fresh)}",
+                                   pl)
+                held.append((n, kind, got, frozenset(want)))
+            for n0, kind0, got0, want0 in held:
+                if got0 != want0:
+                    return Failure(f"deps-result-changed-later-{kind0}",
+                                   f"the set returned by call {n0} changed during call {n}: now "
+                                   f"{_shows(got0)}, was {_shows(want0)}", pl)
+        return None
+
+    def shrink(self, pl):
+        yield from _shrink_history(pl, "steps")
+        if len(pl["mappers"]) > 1:
+            for keep in range(len(pl["mappers"])):
+                yield {**pl, "mappers": [pl["mappers"][keep]],
+                       "steps": [[0, e] for m, e in pl["steps"] if m == keep]}
+
+    def nontrivial_key(self, pl, model, impl):
+        if impl.count("(err") == len(pl["steps"]):
+            return None
+        return self.request(pl) + str(pl.get("share"))
+
+    def stats(self, pl, mo, io, acc):
+        acc["calls"] = acc.get("calls", 0) + len(pl["steps"])
+        if len(pl["mappers"]) > 1:
+            acc["two_mappers"] = acc.get("two_mappers", 0) + 1
+        if pl.get("share"):
+            acc["shared_objects"] = acc.get("shared_objects", 0) + 1
+        if "(err" in io:
+            acc["with_errors"] = acc.get("with_errors", 0) + 1
+        for sp in pl["mappers"]:
+            k = "cached" if sp["cached"] else "plain"
+            acc[k] = acc.get(k, 0) + 1
+
+
+class CountHistoryStream(Stream):
+    """Histories for the counters: ONE `FlopCounter` (memoizing) / ONE `CSEAwareFlopCounter` (its
+    seen-set is per instance on purpose: a wrapper seen in an earlier call of THAT object counts 0
+    later — the reference threads one seen-set per object the same way) / ONE `NodeCountMapper`
+    (its cache is per instance: `.count` after the i-th call is the number of distinct
+    subexpressions of everything THAT object walked so far) / `get_num_nodes` called repeatedly (a
+    fresh mapper per call: no answer may depend on the calls before).  Sometimes two objects of
+    the class are interleaved on the same trees (nothing may leak from one object to the other).
+    A counter object is discarded after it raised."""
+    name = "counts-history"
+    KINDS = ["flops", "flopscse", "nodecount", "numnodes"]
+
+    def cases(self, rng, tier):
+        n = 600 if tier == "quick" else 10000
+        g = ExprGen(rng, cse=0.2, floats=0.02)
+        for i in range(n):
+            what = self.KINDS[i % 4]
+            length = rng.randint(2, 6)
+            trees = history_trees(rng, g, length)
+            objs = 2 if what != "numnodes" and rng.random() < 0.3 else 1
+            steps = [[rng.randrange(objs), k] for k in range(length)]
+            if length < 6 and rng.random() < 0.3:
+                steps.append([rng.randrange(objs), rng.randrange(length)])
+            if objs == 2 and len(steps) < 6:
+                # the tree one object has just counted, given to the other object
+                m, e = rng.choice(steps)
+                steps.append([1 - m, e])
+            yield {"what": what, "share": rng.random() < 0.5, "objects": objs, "steps": steps,
+                   "exprs": [dumps(expr_to_sx(e)) for e in trees]}
+
+    def request(self, pl):
+        groups = " ".join("(" + " ".join(pl["exprs"][e] for m, e in pl["steps"] if m == k) + ")"
+                          for k in range(pl["objects"]))
+        if pl["what"] in ("flops", "flopscse"):
+            return f"(c09flops-hist {'true' if pl['what'] == 'flopscse' else 'false'} ({groups}))"
+        return f"(c09count-hist {'true' if pl['what'] == 'nodecount' else 'false'} ({groups}))"
+
+    def _objects(self, pl):
+        """one callable per counter object; whether an object is discarded after an exception"""
+        from pymbolic.mapper.analysis import NodeCountMapper, get_num_nodes
+        from pymbolic.mapper.flop_counter import CSEAwareFlopCounter, FlopCounter
+        what = pl["what"]
+        if what == "numnodes":
+            return [get_num_nodes], False
+        if what == "nodecount":
+            def counter():
+                m = NodeCountMapper()
+
+                def call(e):
+                    m(e)
+                    return m.count
+                return call
+            return [counter() for _ in range(pl["objects"])], True
+        cls = FlopCounter if what == "flops" else CSEAwareFlopCounter
+        return [cls() for _ in range(pl["objects"])], True
+
+    def run_impl(self, pl):
+        es = history_exprs(pl)
+        objs, discard = self._objects(pl)
+        outs = [[] for _ in objs]
+        dead = set()
+        for m, e in pl["steps"]:
+            if m in dead:
+                continue
+            try:
+                outs[m].append(str(objs[m](es[e])))
+            except RecursionError:
+                raise
+            except Exception as ex:
+                outs[m].append(err_sx(ex))
+                if discard:
+                    dead.add(m)      # the counter instance is discarded after an exception
+        return "(" + " ".join("(" + " ".join(o) + ")" for o in outs) + ")"
+
+    def oracle(self, pl):
+        from pymbolic.mapper.flop_counter import CSEAwareFlopCounter, FlopCounter
+        es = history_exprs(pl)
+        objs, discard = self._objects(pl)
+        what = pl["what"]
+        seen = [set() for _ in objs]        # the reference's seen-set of each object
+        walked = [[] for _ in objs]         # the trees each object has been given
+        answers = {}
+        dead = set()
+        for n, (m, ei) in enumerate(pl["steps"]):
+            if m in dead:
+                continue
+            e = es[ei]
+            try:
+                got = objs[m](e)
+            except Exception:
+                if discard:
+                    dead.add(m)
+                continue
+            walked[m].append(e)
+            if what == "numnodes":
+                f = numnodes_failure(e, got, pl)
+                if f is not None:
+                    return f
+                prev = answers.setdefault(ei, got)
+                if prev != got:
+                    return Failure("numnodes-history-differs",
+                                   f"call {n}: get_num_nodes gives {got} for a tree it counted "
+                                   f"as {prev} before", pl)
+                continue
+            if what == "nodecount":
+                coarse, fine = scan.distinct_counts(tuple(walked[m]))
+                # the tuple of the trees walked so far is itself not one of them
+                coarse, fine = coarse - 1, fine - 1
+                if not coarse <= got <= fine:
+                    return Failure("nodecount-history-differs",
+                                   f"after call {n} NodeCountMapper object {m} has count {got}; "
+                                   f"distinct subexpressions of the trees it walked so far: "
+                                   f"{fine if coarse == fine else [coarse, fine]}", pl)
+                continue
+            try:
+                want = scan.count_flops(e) if what == "flops" else scan.count_flops(e, seen[m])
+            except TypeError:
+                return None     # an unhashable wrapper: the reference's seen-set is undefined
+            if got != want:
+                cls = FlopCounter if what == "flops" else CSEAwareFlopCounter
+                try:
+                    fresh_ok = cls()(e) == (scan.count_flops(e) if what == "flops"
+                                            else scan.count_flops(e, set()))
+                except Exception:
+                    fresh_ok = True
+                key = f"{what}-history-differs" if fresh_ok else f"{what}-differs"
+                return Failure(key, f"call {n} ({cls.__name__} object {m}): {got}, independent "
+                               f"count {want}", pl)
+        return None
+
+    def shrink(self, pl):
+        yield from _shrink_history(pl, "steps")
+        if pl["objects"] > 1:
+            for keep in range(pl["objects"]):
+                yield {**pl, "objects": 1,
+                       "steps": [[0, e] for m, e in pl["steps"] if m == keep]}
+
+    def nontrivial_key(self, pl, model, impl):
+        return self.request(pl) + json_steps(pl) if "(err" not in impl.split(")")[0] else None
+
+    def stats(self, pl, mo, io, acc):
+        acc[pl["what"]] = acc.get(pl["what"], 0) + 1
+        acc["calls"] = acc.get("calls", 0) + len(pl["steps"])
+        if pl["objects"] > 1:
+            acc["two_objects"] = acc.get("two_objects", 0) + 1
+        if "err" in io:
+            acc["with_errors"] = acc.get("with_errors", 0) + 1
+
+
+def json_steps(pl):
+    return str(pl["steps"]) + str(pl.get("share"))
+
+
+# }}}
+
+
 def extract(ctx=None):
     """lean/PV/Generated/Analysis.lean (and Traversal.lean, whose combine / walk tables and node
     classes it builds on) from the live source of dependency.py, flop_counter.py, analysis.py and
@@ -422,10 +893,11 @@ def extract(ctx=None):
 PROP = Prop(
     id="C09",
     title="Dependency, node-count and flop analyses are exact",
-    lean_targets=["PV.Properties.C09"],
+    lean_targets=["PV.Properties.C09", "PV.Properties.C09History"],
     theorems=[],
     extractors=[extract],
-    streams=[DepStream(), CountStream(), NodeCountStream()],
+    streams=[DepStream(), CountStream(), NodeCountStream(), DepHistoryStream(),
+             CountHistoryStream()],
     trusted_base=["Lean 4.33 kernel; axioms propext, Classical.choice, Quot.sound only",
                   "harness serialisation; Python set semantics modelled as duplicate-free lists under ==",
                   "extract/analysis.py + extract/traversal.py (ast readers of the map_* handlers, "
